@@ -29,6 +29,7 @@ func init() {
 			{"C11.R6", "q", "error classification", c11r6},
 			{"C11.R9", "q", "per-command state reset", c11r9},
 			{"C11.R8", "q", "no lock across blocking channel operations", c11r8},
+			{"C15.R1", "q", "shared: bucket used only when READY (otherwise nil dereference ⇒ contained panic, no reply)", c15r1},
 		},
 	})
 }
